@@ -19,4 +19,12 @@ def open_file(path: Path, mode: str) -> ContextManager[ProcessExecutionFile]:
 
 @contextmanager
 def opened_file(f: TextIO) -> ContextManager[ProcessExecutionFile]:
+    """
+    Gives a file that is already opened, and that may have been written to.
+
+    A process writes to the file via the file descriptor,
+    so contents that is buffered by the file object must be
+    flushed, for it to precede the output from the process.
+    """
+    f.flush()
     yield f
